@@ -48,6 +48,11 @@ CHECKS = {
          "Schnorr over the 17 group instances with an implicit generator (keys {1,q-1,r1,r2} x 8 message lengths incl. 0 and 4096): honest verifies; every single-bit flip of signature and key (all bits for one key/two lengths, one bit per byte elsewhere) and of messages <= 65 bytes, +-1 byte, other key -> rejected unless the encoding decodes to the same (R,S,key). Ed25519: S+k*l for every k below 2^256; all 14x14 pairs of small-order / non-canonical encodings as (A,R) with S in {0,1} x 24 messages, and spliced into a valid signature. EdDSA vs crypto/ed25519 on 64 seeds x 12 lengths: identical key and signature bytes, deterministic, key reload on a used object, kyber accepts => stdlib accepts. Ring signatures on Ed25519, P-256, bn256.G1: ring sizes 1..5 x every signer x scopes {nil, empty, a, b} x 2 messages, tag relations, every component replaced / bit-flipped / truncated, other message / ring member / scope.",
          "Trusted: crypto/ed25519 as RFC 8032 reference; chance acceptance of a mutated signature (2^-250) ignored.",
          "DESIGN.md §4 C08"),
+ "C09": ("model_checking",
+         "exhaustive enumeration of partial-signature lists (subsets x orders x injected faults at every position), of participation masks x construction routes, and of mask operation sequences, on the real BLS/TBLS/BDN/CoSi code",
+         "BLS on the 8 supported (suite, signature group) combinations: keys {1,r1,r2} x 3 message lengths; forged variants (sigma+B, -sigma, 2 sigma, identity, other key/message, one bit per byte). Threshold BLS: all (t,n) up to n=3 (4 for two combinations; thorough 4-5): every subset with >= t-1 valid partials, every order (n<=3), one injected item from an 8-element fault menu at every position: Recover == bls.Sign(group secret) iff >= t distinct valid partials, else error. BDN: all non-empty masks over n<=3 (4 on bn256) signers through 6+|mask| construction routes (SetBit, own-key constructor, SetMask, Merge, aggregate-then-Merge, Clone-then-edit): route-independent aggregate key, verifies under it and under no other mask or message. CoSi: all masks over n<=4 x all threshold policies + Complete, every bit of V|r|mask flipped, length variants; all 14^3 mask-edit sequences keep AggregatePublic = sum of enabled keys.",
+         "Trusted: seeded keys; chance acceptance ignored. Larger n and t are not covered.",
+         "DESIGN.md §4 C09"),
 }
 
 NOT_YET = "check not built yet in this round (planned: see DESIGN.md §4)"
